@@ -25,6 +25,8 @@ MAX_SAMPLES = 5
 def bucket_of(d):
     where = re.sub(r"/imagery/[A-Za-z0-9_]+", "/imagery/*", d["where"])
     where = re.sub(r"\d+", "N", where)
+    if d.get("context", {}).get("pair_index"):
+        where += " [second product at the same path]"
     return f"{d['kind']}|{where}"
 
 
@@ -107,13 +109,16 @@ def touch():
         os.utime(path)
 
 
-def call_run_case(prop, case):
+def call_run_case(prop, case, beat=True):
     """run_case under a watchdog (main thread of the worker); a case that does not come back is a
     discrepancy ('did-not-terminate'), never a hang of the check"""
     import signal
 
     limit = getattr(prop, "CASE_TIMEOUT_S", CASE_TIMEOUT_S)
-    heartbeat(case)
+    if beat:
+        heartbeat(case)
+    if "__pair__" in case:
+        return run_pair(prop, case)
 
     def handler(signum, frame):
         raise CaseTimeout()
@@ -132,6 +137,31 @@ def call_run_case(prop, case):
     finally:
         signal.alarm(0)
         signal.signal(signal.SIGALRM, old)
+
+
+def run_pair(prop, case):
+    """in-place pair: the two products of the pair are materialised one after the other at the
+    same root (same path / URL, same file names), the second replacing the first - what a
+    re-delivered product looks like to a long-running process.  Both are judged by the
+    property's ordinary oracle; anything remembered from the first product (module-level memos
+    keyed by path, cached handles, stale indexes) shows up as a discrepancy of the second."""
+    out = []
+    old = harness.FIXED_NAME
+    harness.FIXED_NAME = f"reuse-{os.getpid()}-{harness.case_hash(case)[:10]}"
+    try:
+        for index, sub in enumerate(case["__pair__"]):
+            for d in call_run_case(prop, sub, beat=False):
+                d.setdefault("context", {})["pair_index"] = index
+                out.append(d)
+    finally:
+        harness.FIXED_NAME = old
+    return out
+
+
+def sub_case(case, d):
+    if "__pair__" in case:
+        return case["__pair__"][d.get("context", {}).get("pair_index", 0)]
+    return case
 
 
 def load_prop(pid):
@@ -160,8 +190,12 @@ def abbreviate(case, limit=1200):
 def account(prop, case, stats):
     """count one executed case (evaluations, distinct / non-trivial sets, labels, samples)"""
     h = harness.case_hash(case)
-    nontrivial, labels = prop.classify(case)
-    units = getattr(prop, "sub_units", None)
+    if "__pair__" in case:
+        nontrivial, labels = prop.classify(case["__pair__"][1])
+        labels = ["in-place-pair"] + [f"pair:{l}" for l in labels[:3]]
+    else:
+        nontrivial, labels = prop.classify(case)
+    units = getattr(prop, "sub_units", None) if "__pair__" not in case else None
     if units is not None:
         # a case bundles several evaluations (e.g. a batch of index expressions)
         n = 0
@@ -192,7 +226,7 @@ def judge(prop, case, discs, stats, open_known):
     """filter known findings, bucket the rest; returns the unknown discrepancies"""
     unknown = []
     for d in discs:
-        kid = known.match(prop.ID, case, d, open_known)
+        kid = known.match(prop.ID, sub_case(case, d), d, open_known)
         if kid:
             stats.excluded_known[kid] += 1
         else:
@@ -286,26 +320,30 @@ def run_machine_stage(prop, stage, seed_value, stats, open_known, deadline, exam
             if case["ops"]:
                 account(prop, case, stats)
             return []
-        return judge(prop, case, discs, stats, open_known)
+        unknown = judge(prop, case, discs, stats, open_known)
+        if unknown:
+            seen_failure.append(1)
+        return unknown
 
+    seen_failure = []
     machine = stage["machine"](on_history)
     cfg = settings(
         max_examples=examples, stateful_step_count=stage.get("steps", 12), database=None, deadline=None,
         derandomize=False, report_multiple_bugs=False, suppress_health_check=list(HealthCheck),
         phases=[Phase.generate, Phase.shrink], print_blob=False,
     )
-    from hypothesis.errors import Flaky
+    from hypothesis.errors import HypothesisException
 
-    before = len(stats.failures)
     try:
         run_state_machine_as_test(seed(seed_value)(machine), settings=cfg)
     except AssertionError:
         pass  # the verdict is in stats.failures (smallest failing history)
-    except (Flaky, ExceptionGroup):
-        # the same history gave different results when the library replayed it: the code under
-        # test keeps state between histories (itself a history dependence).  The failing
-        # histories were recorded by on_history; without any the exception is a harness error.
-        if len(stats.failures) == before:
+    except (HypothesisException, ExceptionGroup):
+        # the same history gave different results when the library replayed it (Flaky,
+        # FlakyStrategyDefinition, ...): the code under test keeps state between histories
+        # (itself a history dependence).  The failing histories were recorded by on_history;
+        # without any the exception is a harness error.
+        if not seen_failure:
             raise
         stats.labels["machine:replay-gave-different-result"] += 1
 
@@ -359,7 +397,7 @@ def shrink_bucket(prop, stage, seed_value, bucket, open_known, budget_s, example
             discs = call_run_case(prop, case)
         except OutOfDomain:
             return
-        unknown = [d for d in discs if not known.match(prop.ID, case, d, open_known)]
+        unknown = [d for d in discs if not known.match(prop.ID, sub_case(case, d), d, open_known)]
         if any(bucket_of(d) == bucket for d in unknown):
             size = len(harness.canonical(case))
             if not best or size <= best["size"]:
@@ -694,7 +732,7 @@ def replay(pid, path):
         discs = [harness.disc("did-not-terminate", "case", f"a result within {limit_s} s", "still running (process killed by the watchdog)")]
     else:
         discs = [harness.disc("process-died", "case", "a result", f"process died (exit code {payload.get('exitcode')})")]
-    unknown = [d for d in discs if not known.match(pid, case, d, open_known)]
+    unknown = [d for d in discs if not known.match(pid, sub_case(case, d), d, open_known)]
     for d in discs:
         tag = "UNKNOWN" if d in unknown else "known"
         print(f"  [{tag}] {d['kind']} at {d['where']}: expected {d['expected']} observed {d['observed']}")
